@@ -550,7 +550,61 @@ impl<'tcx> Cx<'tcx> {
             }
             out.push('}');
         }
-        out.push_str("]}\n");
+        out.push(']');
+        // promoted constants: the constant operands each promoted body mentions
+        // (e.g. `&INTERNAL_KG` is promoted; its value is only visible here)
+        let prom = std::panic::catch_unwind(std::panic::AssertUnwindSafe(|| tcx.promoted_mir(did)));
+        if let Ok(prom) = prom {
+            if !prom.is_empty() {
+                out.push_str(",\"promoted\":[");
+                for (pi, pb) in prom.iter().enumerate() {
+                    if pi > 0 {
+                        out.push(',');
+                    }
+                    out.push('[');
+                    let mut first = true;
+                    let mut add = |c: &rustc_middle::mir::ConstOperand<'tcx>, out: &mut String| {
+                        let mut txt = format!("{}", c.const_);
+                        let env = TypingEnv::post_analysis(tcx, did);
+                        if let Const::Unevaluated(..) = c.const_ {
+                            if let Ok(v) = c.const_.eval(tcx, env, c.span) {
+                                let cv = Const::Val(v, c.const_.ty());
+                                let _ = write!(txt, " = {}", cv);
+                            }
+                        }
+                        if txt.len() < 300 {
+                            if !first {
+                                out.push(',');
+                            }
+                            first = false;
+                            out.push_str(&esc(&txt));
+                        }
+                    };
+                    for bb in pb.basic_blocks.iter() {
+                        for st in bb.statements.iter() {
+                            if let StatementKind::Assign(b) = &st.kind {
+                                let (_, rv) = &**b;
+                                match rv {
+                                    Rvalue::Use(Operand::Constant(c), ..) => add(c, out),
+                                    Rvalue::Aggregate(_, ops) => {
+                                        for o in ops.iter() {
+                                            if let Operand::Constant(c) = o {
+                                                add(c, out);
+                                            }
+                                        }
+                                    }
+                                    Rvalue::Cast(_, Operand::Constant(c), _) => add(c, out),
+                                    _ => {}
+                                }
+                            }
+                        }
+                    }
+                    out.push(']');
+                }
+                out.push(']');
+            }
+        }
+        out.push_str("}\n");
     }
 }
 
